@@ -128,6 +128,21 @@ impl Serializer {
                             entries.push(TableIndexEntry::new(string, entry_value).into());
                         }
                     } else {
+                        // `{ [nil] = ... }` and `{ [0/0] = ... }` raise an error when the
+                        // table is built in Lua, so refuse to generate them
+                        match &key {
+                            Expression::Nil(_) => {
+                                return Err(LuaSerializerError::new(
+                                    "unable to convert a null key into a Lua table key",
+                                ));
+                            }
+                            Expression::Number(number) if number.compute_value().is_nan() => {
+                                return Err(LuaSerializerError::new(
+                                    "unable to convert a NaN key into a Lua table key",
+                                ));
+                            }
+                            _ => {}
+                        }
                         entries.push(TableIndexEntry::new(key, entry_value).into());
                     }
                     Ok(())
